@@ -1265,6 +1265,8 @@ def evaluate__from_datetime_functions(self: XPathFunction, context: ta.ContextTy
     if item is None:
         return []
     elif self.symbol.startswith('year'):
+        if item.year < 0 and item.xsd_versions != '1.0':
+            return item.year + 1  # XSD 1.1 has the year zero
         return item.year
     elif self.symbol.startswith('month'):
         return item.month
@@ -1310,6 +1312,8 @@ def evaluate__from_date_functions(self: XPathFunction, context: ta.ContextType =
     if item is None:
         return []
     elif self.symbol.startswith('year'):
+        if item.year < 0 and item.xsd_versions != '1.0':
+            return item.year + 1  # XSD 1.1 has the year zero
         return item.year
     elif self.symbol.startswith('month'):
         return item.month
